@@ -8,7 +8,7 @@ LEVEL_NOTE = "models: coq/Model/MemStore.v, FileStore.v (as coded after fixes 00
 RULE = ("random operation histories (4-60 ops, 1-5 mailboxes incl. names sharing a 12-bit SHA-1 prefix, '@', special characters and spellings that differ only in letter case (different mailboxes); "
         "characters; missing / not-yet-issued / bogus / 'latest' handles and other SPELLINGS of a live id (leading zeros, sign, blanks, letter case: they name no message), double removes, purge-then-latest) on a fresh real "
         "memory store and a fresh real file store; distinct = distinct input line; non-trivial = at least one add and one "
-        "operation on a stored message; plus 12 file-store histories whose first deliveries straddle the wrap of the id counter within one second (arrival order is not id order; planted in the on-disk index) and the collide cases; plus 33 histories on both stores with content sizes from {0, 1, 100, 4095, 4096, 4097, 65535, 65536, 65537, 200000, ~1 MiB} (content derived from the tag to exactly that size; every Get/listing/visit re-reads and compares the full content of every message it returns, all live messages again at the end); plus 60 histories on both stores ending in a VisitMailboxes whose visitor returns false at its k-th non-empty mailbox (half of them removing the oldest message of each mailbox handed over): exactly min(k, non-empty mailboxes) are handed over, the visitor is never called again; EVERY visit retains the messages it is handed and reads their mailbox, id, size, seen flag and full content only after VisitMailboxes has returned; plus 50 histories on both stores with listings the caller keeps (h) and reads again at the end (c) after later operations on other mailboxes and on their own")
+        "operation on a stored message; plus 12 file-store histories whose first deliveries straddle the wrap of the id counter within one second (arrival order is not id order; planted in the on-disk index) and the collide cases; plus 33 histories on both stores with content sizes from {0, 1, 100, 4095, 4096, 4097, 65535, 65536, 65537, 200000, ~1 MiB} (content derived from the tag to exactly that size; every Get/listing/visit re-reads and compares the full content of every message it returns, all live messages again at the end); plus 60 histories on both stores ending in a VisitMailboxes whose visitor returns false at its k-th non-empty mailbox (half of them removing the oldest message of each mailbox handed over): exactly min(k, non-empty mailboxes) are handed over, the visitor is never called again; EVERY visit retains the messages it is handed and reads their mailbox, id, size, seen flag and full content only after VisitMailboxes has returned; plus 24 histories on both stores with long and odd METADATA as a function of the tag (subjects of 0..70000 octets, multi-byte characters straddling octets 998/1024/4096, invalid UTF-8, NUL, CR/LF/TAB, long and odd From names, To lists of 0..500 addresses, sub-second parts, non-UTC zones, instants from year 1 to 9999), every field compared with what was written (dates by instant); plus 50 histories on both stores with listings the caller keeps (h) and reads again at the end (c) after later operations on other mailboxes and on their own")
 TRUSTED = ["handles: messages are named by 'k-th add to this mailbox' / 'latest' / a bogus literal; the driver's id<->handle table (Go map) is modelled by StoreSpecImpl.run_impl", 'message content is abstracted to (date, tag, size, seen): the driver checks that from/to/subject/body/mailbox read back equal what the add with that handle wrote and prints the tag only then', 'VisitMailboxes enumeration order (map / readdir order) is not compared: groups are sorted by mailbox on both sides; empty groups are dropped', 'file store: byte-level disk protocol (tmp+rename, unlink order, gob) is not in this model (C10/C11); I/O errors are not modelled', 'memory store: the size enforcer goroutine is modelled as a synchronous sub-step (callers block on md.done); creation of an empty mailbox record by reads is not modelled (unobservable)', 'the order of the deleted events of ONE PurgeMessages is not compared (map iteration order in the memory store): the driver sorts them by handle', 'within one operation the driver prints the deleted events before the stored event (two brokers; order across them is observed at operation granularity only)']
 ASSUMPTIONS = ["file store: fewer than 10 000 deliveries fall into any one wall-clock second and a single process incarnation issues the ids (env_ok; theorem file_fresh_from_env derives the id-freshness hypothesis file_fresh of file_refines_spec from it). Several incarnations within one second are C10's restart model (fix 0010)"]
 NOT_PROVED = []
